@@ -104,12 +104,26 @@ func runConfigLoad(c Case) interface{} {
 			return obj("harness-error", "mkdir: "+err.Error())
 		}
 	}
-	for _, f := range c18Pairs(c["files"]) {
+	// files named in "links" are symbolic links to a file kept elsewhere (as dot-file managers
+	// and /etc/alternatives set configuration files up): to the reader they are that file
+	asLink := map[string]bool{}
+	for _, n := range unhxs(c["links"]) {
+		asLink[n] = true
+	}
+	for i, f := range c18Pairs(c["files"]) {
 		p := real(f.Name)
 		if err := os.MkdirAll(path.Dir(p), 0755); err != nil {
 			return obj("harness-error", "mkdir: "+err.Error())
 		}
-		if err := ioutil.WriteFile(p, []byte(c18Subst(f.Content, root)), 0644); err != nil {
+		where := p
+		if asLink[f.Name] {
+			os.MkdirAll(root+"/.kept-elsewhere", 0755)
+			where = fmt.Sprintf("%s/.kept-elsewhere/%d", root, i)
+			if err := os.Symlink(where, p); err != nil {
+				return obj("harness-error", "symlink: "+err.Error())
+			}
+		}
+		if err := ioutil.WriteFile(where, []byte(c18Subst(f.Content, root)), 0644); err != nil {
 			return obj("harness-error", "write: "+err.Error())
 		}
 	}
@@ -398,6 +412,7 @@ type c18World struct {
 	swConfig string
 	swBase   string
 	argv0    string
+	links    []string // files that are symbolic links to a file kept elsewhere
 }
 
 func (w *c18World) addFile(name, content string) {
@@ -426,9 +441,13 @@ func (w *c18World) toCase() Case {
 	for _, k := range []string{"LAYERROOT", "LAYERCONF", "HOME"} {
 		env[k] = hx(w.env[k])
 	}
-	return Case{"op": "config.load", "files": fl, "dirs": hxs(dl), "env": env,
+	c := Case{"op": "config.load", "files": fl, "dirs": hxs(dl), "env": env,
 		"switches": obj("config", hx(w.swConfig), "basepath", hx(w.swBase)),
 		"argv0": hx(w.argv0), "cwd": hx(vroot)}
+	if len(w.links) > 0 {
+		c["links"] = hxs(w.links)
+	}
+	return c
 }
 
 func c18FileName(g *Gen, i int) string {
@@ -565,6 +584,17 @@ func genC18World(g *Gen, malformed bool) *c18World {
 	}
 	if g.Chance(1, 3) {
 		w.env["LAYERROOT"] = c18Value(g, "BASEPATH")
+	}
+	if g.Chance(1, 4) {
+		for _, f := range w.files {
+			if g.Chance(1, 2) {
+				w.links = append(w.links, f.Name)
+			}
+		}
+	}
+	// a stray .layercake in the working directory: no candidate of the search names it
+	if w.env["HOME"] == "" && g.Chance(1, 6) {
+		w.addFile(vroot+"/.layercake", "BASEPATH = "+vroot+"/stray\nLAYERS = stray-layers\n")
 	}
 	return w
 }
